@@ -53,11 +53,30 @@ type UPtr struct {
 type Str struct {
 	S string
 	B []*Term
+	A []Value // non-nil: the string ALIASES these byte cells (unsafe.String): read at use time
+}
+
+// snap returns a snapshot of an aliasing string.
+func (s Str) snap() Str {
+	if s.A == nil {
+		return s
+	}
+	ts := make([]*Term, len(s.A))
+	for i, v := range s.A {
+		ts[i] = v.(*Term)
+	}
+	if len(ts) == 0 {
+		return Str{}
+	}
+	return StrFromTerms(ts)
 }
 
 func CStr(s string) Str { return Str{S: s} }
 
 func (s Str) Len() int {
+	if s.A != nil {
+		return len(s.A)
+	}
 	if s.B != nil {
 		return len(s.B)
 	}
@@ -65,6 +84,9 @@ func (s Str) Len() int {
 }
 
 func (s Str) At(i int) *Term {
+	if s.A != nil {
+		return s.A[i].(*Term)
+	}
 	if s.B != nil {
 		return s.B[i]
 	}
@@ -73,6 +95,9 @@ func (s Str) At(i int) *Term {
 
 // Concrete returns the Go string if all bytes are constants.
 func (s Str) Concrete() (string, bool) {
+	if s.A != nil {
+		return s.snap().Concrete()
+	}
 	if s.B == nil {
 		return s.S, true
 	}
@@ -87,6 +112,9 @@ func (s Str) Concrete() (string, bool) {
 }
 
 func (s Str) Bytes() []*Term {
+	if s.A != nil {
+		return s.snap().Bytes()
+	}
 	if s.B != nil {
 		return s.B
 	}
@@ -119,6 +147,12 @@ func StrFromTerms(b []*Term) Str {
 }
 
 func (s Str) Slice(lo, hi int) Str {
+	if s.A != nil {
+		if lo == hi {
+			return Str{}
+		}
+		return Str{A: s.A[lo:hi:hi]}
+	}
 	if s.B != nil {
 		return StrFromTerms(append([]*Term(nil), s.B[lo:hi]...))
 	}
@@ -126,6 +160,7 @@ func (s Str) Slice(lo, hi int) Str {
 }
 
 func StrConcat(a, b Str) Str {
+	a, b = a.snap(), b.snap()
 	if a.B == nil && b.B == nil {
 		return Str{S: a.S + b.S}
 	}
@@ -142,6 +177,7 @@ func StrConcat(a, b Str) Str {
 }
 
 func StrEq(a, b Str) *Term {
+	a, b = a.snap(), b.snap()
 	if a.Len() != b.Len() {
 		return TFalse
 	}
@@ -160,6 +196,7 @@ func StrEq(a, b Str) *Term {
 
 // StrLess returns the term a < b (bytewise lexicographic).
 func StrLess(a, b Str) *Term {
+	a, b = a.snap(), b.snap()
 	if a.B == nil && b.B == nil {
 		return BoolT(a.S < b.S)
 	}
@@ -177,6 +214,7 @@ func StrLess(a, b Str) *Term {
 }
 
 func (s Str) String() string {
+	s = s.snap()
 	if c, ok := s.Concrete(); ok {
 		return fmt.Sprintf("%q", c)
 	}
